@@ -98,7 +98,7 @@ func runSolver(sp solverSpec, file string, timeoutMs int) solveOut {
 	_ = cmd.Run()
 	secs := time.Since(t0).Seconds()
 	raw := out.String()
-	first := strings.TrimSpace(strings.SplitN(raw, "\n", 2)[0])
+	first := firstAnswer(raw)
 	res := "error"
 	switch first {
 	case "unsat", "sat", "unknown":
@@ -237,12 +237,12 @@ func (g *G) feasible(s *State) bool {
 		w.stop()
 	}
 	if os.Getenv("GOVC_DEBUG_FEAS") != "" {
-		fmt.Fprintf(os.Stderr, "feasible? %s (%d asserts)\n", strings.TrimSpace(strings.SplitN(raw, "\n", 2)[0]), len(s.Asserts))
+		fmt.Fprintf(os.Stderr, "feasible? %s (%d asserts)\n", firstAnswer(raw), len(s.Asserts))
 		if os.Getenv("GOVC_DEBUG_FEAS") == "dump" {
 			os.WriteFile(fmt.Sprintf("/tmp/feas_%d.smt2", atomic.LoadInt64(&feasCount)), []byte(txt), 0o644)
 		}
 	}
-	if strings.TrimSpace(strings.SplitN(raw, "\n", 2)[0]) == "unsat" {
+	if firstAnswer(raw) == "unsat" {
 		atomic.AddInt64(&feasPruned, 1)
 		return false
 	}
@@ -283,8 +283,8 @@ func (g *G) solveAll(obls []*Obligation, dir string, timeoutMs int, thorough boo
 		nw = n
 	}
 	quick := timeoutMs
-	if quick > 3000 {
-		quick = 3000
+	if quick > 20000 {
+		quick = 20000
 	}
 	for k := 0; k < nw; k++ {
 		wg.Add(1)
@@ -303,7 +303,7 @@ func (g *G) solveAll(obls []*Obligation, dir string, timeoutMs int, thorough boo
 					if !ok {
 						w.stop()
 						w = nil
-					} else if first := strings.TrimSpace(strings.SplitN(raw, "\n", 2)[0]); first == "unsat" {
+					} else if first := firstAnswer(raw); first == "unsat" {
 						j.o.Result, j.o.Solver, j.o.Raw = "unsat", "z3-new(qf)", raw
 						os.WriteFile(file, []byte(g.queryText(j.o, false)), 0o644)
 						continue
@@ -319,10 +319,10 @@ func (g *G) solveAll(obls []*Obligation, dir string, timeoutMs int, thorough boo
 							w.stop()
 							w = nil
 						}
-						if ok2 && strings.TrimSpace(strings.SplitN(raw2, "\n", 2)[0]) == "unsat" {
+						if ok2 && firstAnswer(raw2) == "unsat" {
 							j.o.Result, j.o.Solver, j.o.Raw = "unsat", "z3-new", raw2
 							os.WriteFile(file, []byte(g.queryText(j.o, false)), 0o644)
-						} else if ok2 && strings.TrimSpace(strings.SplitN(raw2, "\n", 2)[0]) == "sat" {
+						} else if ok2 && firstAnswer(raw2) == "sat" {
 							j.o.Result, j.o.Solver = "sat", "z3-new"
 						} else {
 							j.o.Result, j.o.Solver = "sat", "z3-new(qf)"
@@ -339,7 +339,7 @@ func (g *G) solveAll(obls []*Obligation, dir string, timeoutMs int, thorough boo
 						w.stop()
 						w = nil
 					} else {
-						first := strings.TrimSpace(strings.SplitN(raw, "\n", 2)[0])
+						first := firstAnswer(raw)
 						want := "unsat"
 						if j.o.Cover {
 							want = "sat"
@@ -356,6 +356,7 @@ func (g *G) solveAll(obls []*Obligation, dir string, timeoutMs int, thorough boo
 						}
 					}
 				}
+				j.o.poolTried = w != nil
 				g.solveOne(j.o, file, timeoutMs, thorough)
 			}
 		}()
@@ -379,16 +380,23 @@ func (g *G) solveOne(o *Obligation, file string, timeoutMs int, thorough bool) {
 	if quick > 3000 {
 		quick = 3000
 	}
-	r := runSolver(solvers[0], file, quick)
+	r := solveOut{res: "unknown", solver: "z3-new"}
+	if !o.poolTried {
+		r = runSolver(solvers[0], file, quick)
+	}
 	definite := func(x string) bool { return x == "sat" || x == "unsat" }
 	if !definite(r.res) {
 		// race all solvers with the full timeout
-		ch := make(chan solveOut, len(solvers))
-		for _, sp := range solvers {
+		// a fresh z3-new process takes part even when the pooled worker gave
+		// up: a worker after (reset) is not in the state of a fresh process
+		// and borderline queries come out differently
+		race := solvers
+		ch := make(chan solveOut, len(race))
+		for _, sp := range race {
 			go func(sp solverSpec) { ch <- runSolver(sp, file, timeoutMs) }(sp)
 		}
 		var outs []solveOut
-		for range solvers {
+		for range race {
 			x := <-ch
 			outs = append(outs, x)
 			if definite(x.res) {
@@ -518,4 +526,16 @@ func parseBV(v string) (uint64, bool) {
 		return x, err == nil
 	}
 	return 0, false
+}
+
+// firstAnswer: the solver's answer line, skipping warnings.
+func firstAnswer(raw string) string {
+	for _, l := range strings.Split(raw, "\n") {
+		l = strings.TrimSpace(l)
+		if l == "" || strings.HasPrefix(l, "WARNING") || strings.HasPrefix(l, "(warning") {
+			continue
+		}
+		return l
+	}
+	return ""
 }
